@@ -184,7 +184,7 @@ def rule_env():
     return {f"R_C{i:02d}": ("1" if f"C{i:02d}" in ENABLED_PROPS else "0") for i in range(1, 21)}
 
 
-def validate_trace(trace, module="Trace_Solve.tla", cfg="Trace_Solve.cfg", tag="t"):
+def validate_trace(trace, module="Trace_Solve.tla", cfg="Trace_Solve.cfg", tag="t", timeout=3600):
     """TLC-validates one trace shard; returns (fails, covers, begins, stats)."""
     metadir = os.path.join(WORK, "md_" + tag + "_" + os.path.basename(trace))
     env = {"TRACE": trace}
@@ -192,7 +192,7 @@ def validate_trace(trace, module="Trace_Solve.tla", cfg="Trace_Solve.cfg", tag="
     # TLC holds the whole trace as TLA+ values: give big shards a bigger heap
     mb = os.path.getsize(trace) / 1e6
     opts = JAVA_OPTS if mb < 60 else JAVA_OPTS.replace("-Xmx3g", "-Xmx%dg" % min(10, 3 + int(mb / 25)))
-    out, st = tlc(module, cfg, metadir, env_extra=env, java_opts=opts)
+    out, st = tlc(module, cfg, metadir, env_extra=env, java_opts=opts, timeout=timeout)
     fails, covers, begins = [], [], []
     notconsumed = None
     for kind, f in parse_reports(out):
